@@ -467,6 +467,10 @@ def run(ctx):
     broken = bool(trans_err) or (not pr['ok']) or bad or errors
     stats = {}
     hits, n_eval, n_distinct, samples = search(ctx, rng, (120 if ctx.quick else 1500) * (3 if broken else 1), stats)
+    dfails, d_eval, d_dist = L.dtype_search(rng, (200 if ctx.quick else 2000) * (3 if broken else 1), 'rbasex', 'C16')
+    hits += [Hit('dtype-independence', k_, 'rbasex_transform: ' + w_, sn_, da_) for (k_, w_, sn_, da_) in dfails]
+    n_eval += d_eval
+    n_distinct += d_dist
     ctx.cov.update(search_stats=stats)
     ctx.cov.update(evaluations=n_eval + n_cases, distinct_nontrivial=n_distinct,
                    rule='search: random images 3..29 squared, origin tuple (incl. negative) or location string, rmax keyword or '
@@ -474,7 +478,9 @@ def run(ctx):
                         'with zeros, every out value; checked per call: shape and image = synthesis of the returned '
                         'distributions (1e-9 relative to the coefficient scale), same distributions for another out / None, '
                         'zero-weight pixels, valid flags, zero at flagged radii, abel.Transform wrapper, and the same call '
-                        'after another out without cache clean-up; distinct by (out, odd, direction, reg, weights)',
+                        'after another out without cache clean-up; distinct by (out, odd, direction, reg, weights); dtype independence: integer '
+                        '(8..64 bit) and float32 images and weights with values up to the type extremes give the image and distributions '
+                        'of their float64 copies (bit for bit where conversions are exact), the image is float64',
                    samples=samples, exhaustive=False)
     new, seen = 0, set()
     for h in h0 + hits:
